@@ -268,6 +268,18 @@ func buildHost(s string) interface{} {
 	case 'Q':
 		var p *struct{ A int }
 		return p
+	case 'm': // maps and slices that were never made
+		var m map[string]interface{}
+		return m
+	case 'o':
+		var m map[string]string
+		return m
+	case 'l':
+		var l []interface{}
+		return l
+	case 'y':
+		var l []string
+		return l
 	case 'Z':
 		return make(chan int)
 	}
